@@ -20,6 +20,136 @@ PATCHES = [
 ]
 
 
+# patches whose '+' side is their '-' side: whatever they match must come out as it went in - every token the pattern
+# does not spell out (labels, the spread of a last argument, embedded fields, tags, directions, receivers) included
+IDENTITY = [
+    ("id-call", b"@@\nvar f expression\n@@\n-f(...)\n+f(...)\n"),
+    ("id-call-first", b"@@\nvar f, a expression\n@@\n-f(a, ...)\n+f(a, ...)\n"),
+    ("id-for", b"@@\n@@\n for ... {\n-  ...\n+  ...\n }\n"),
+    ("id-lit", b"@@\nvar t expression\n@@\n-t{...}\n+t{...}\n"),
+    ("id-func", b"@@\nvar f identifier\n@@\n func f(...) {\n-  ...\n+  ...\n }\n"),
+    ("id-method", b"@@\nvar f, r identifier\nvar t expression\n@@\n func (r t) f(...) error {\n-  ...\n+  ...\n }\n"),
+    ("id-if", b"@@\nvar c expression\n@@\n-if c {\n-  ...\n-}\n+if c {\n+  ...\n+}\n"),
+    ("id-struct", b"@@\nvar s identifier\n@@\n-type s struct {\n-  ...\n-}\n+type s struct {\n+  ...\n+}\n"),
+    ("id-iface", b"@@\nvar s identifier\n@@\n-type s interface {\n-  ...\n-}\n+type s interface {\n+  ...\n+}\n"),
+    ("id-return", b"@@\n@@\n-return ...\n+return ...\n"),
+    ("id-sel", b"@@\nvar x expression\nvar y identifier\n@@\n-x.y\n+x.y\n"),
+    ("id-assign", b"@@\nvar l, r expression\n@@\n-l = r\n+l = r\n"),
+    ("id-stmts", b"@@\nvar x expression\n@@\n ...\n-return x\n+return x\n"),
+    ("id-go", b"@@\nvar f expression\n@@\n-go f(...)\n+go f(...)\n"),
+    ("id-defer", b"@@\nvar f expression\n@@\n-defer f(...)\n+defer f(...)\n"),
+    ("id-index", b"@@\nvar x, i expression\n@@\n-x[i]\n+x[i]\n"),
+    ("id-unary", b"@@\nvar x expression\n@@\n-&x\n+&x\n"),
+]
+ZOO = b"""package zoo
+
+import (
+	"fmt"
+	"io"
+	"sync"
+)
+
+type Server struct {
+	sync.Mutex
+	io.Reader
+	*Config
+	Name string `json:"name,omitempty"`
+	a, b int
+	fn   func(xs ...int) (n int, err error)
+	ch   <-chan int
+	out  chan<- string
+}
+
+type Store interface {
+	io.Closer
+	fmt.Stringer
+	Get(k string) (v string, ok bool)
+	~int | ~string
+}
+
+type Pair[K comparable, V any] struct {
+	Key K
+	Val V
+}
+
+type alias = Server
+
+func (s *Server) Run(ctx Context, args ...string) (err error) {
+	defer s.Unlock()
+	go s.loop(args...)
+outer:
+	for i := 0; i < len(args); i++ {
+		for _, c := range args[i] {
+			if c == 'x' {
+				continue outer
+			}
+			if c == 'y' {
+				break outer
+			}
+		}
+	}
+scan:
+	for k, v := range s.table() {
+		switch {
+		case k == v:
+			fallthrough
+		case k > v:
+			break scan
+		default:
+			goto done
+		}
+	}
+	for range s.ch {
+	}
+done:
+	select {
+	case v, ok := <-s.ch:
+		use(v, ok)
+	case s.out <- "x":
+	default:
+	}
+	xs := append([]int{1, 2}, s.more()...)
+	ys := xs[1:2:3]
+	p := Pair[string, int]{Key: "k", Val: 1}
+	m := map[string][]int{"a": {1}, "b": nil}
+	f := func(a int, bs ...int) (int, error) { return a, nil }
+	var z interface{ M() } = nil
+	switch t := z.(type) {
+	case nil, interface{ M() }:
+		_ = t
+	}
+	if v, ok := m["a"]; ok && len(v) > 0 {
+		return fmt.Errorf("%v %v %v %v %v", ys, p, f, *s, &m)
+	} else if err = s.fn(xs...); err != nil {
+		return
+	}
+	{
+		x := 1
+		x++
+		x <<= 2
+		_ = x
+	}
+	return nil
+}
+
+func variadic(prefix string, rest ...any) { fmt.Println(append([]any{prefix}, rest...)...) }
+
+func generic[T any, U ~[]T](u U) (t T) { return u[0] }
+
+const (
+	A = iota
+	B
+	C = "c"
+)
+
+var (
+	_, _ = fmt.Println()
+	arr  = [...]int{2: 1, 2}
+	fp   = (*Server).Run
+)
+"""
+
+
 def toolchain_files(limit, maxsize):
     out = []
     for p in PKGS:
@@ -43,6 +173,13 @@ def main():
         src = open(f, "rb").read()
         for pn, ps in PATCHES:
             pairs.append((pn + ".patch", ps, os.path.basename(f), src)); names.append("toolchain:%s x %s" % (os.path.relpath(f, GOROOT_SRC), pn))
+    # identity patches over toolchain sources and a file that holds every kind of syntax
+    id_names = set()
+    for f in [None] + files[:(40 if thorough else 8)]:
+        src = ZOO if f is None else open(f, "rb").read()
+        for pn, ps in IDENTITY:
+            nm = "identity:%s x %s" % (pn, "zoo" if f is None else os.path.relpath(f, GOROOT_SRC))
+            pairs.append((pn + ".patch", ps, "zoo.go" if f is None else os.path.basename(f), src)); names.append(nm); id_names.add(nm)
     # golden inputs padded with surrounding declarations (generics, labels, tags, raw strings, build constraints, closures)
     pad = b"\n\ntype padS[T any] struct {\n\tA T `json:\"a,omitempty\"`\n\tB, C string\n}\n\nfunc padF[T comparable](xs []T) (n int) {\nouter:\n\tfor i := range xs {\n\t\tfor j := range xs {\n\t\t\tif xs[i] == xs[j] {\n\t\t\t\tcontinue outer\n\t\t\t}\n\t\t}\n\t\tn++\n\t}\n\tdefer func() { _ = recover() }()\n\treturn n\n}\n\nvar padRaw = `line1\n\tline2`\n"
     for nm, pn, ps, fn, fs in enginegen.golden_pairs():
@@ -94,7 +231,15 @@ def main():
             if a:
                 nsites += len(a["model_sites"])
                 ck.tally("sites_in_file", min(len(a["model_sites"]), 20))
-        enginecheck.report(ck, name, (pair[0], pair[1], pair[2], pair[3][:3000]), o, "frame", None)
+        if name in id_names and not o["skipped"]:
+            r = o["impl"]
+            ck.tally("identity", "%s: %s" % (name.split(" x ")[0].split(":")[1], ",".join(o.get("isteps") or ["-"])))
+            if r.get("out_tree") and r.get("in_tree") and enginecorr.canon(vlib.parse_sx(r["out_tree"])) != enginecorr.canon(vlib.parse_sx(r["in_tree"])):
+                ck.violation("a patch whose '+' side repeats its '-' side changed the syntax of the file (%s)" % name,
+                             {"case": name, "patch": pair[1].decode(), "file": pair[3].decode("utf-8", "replace")[:4000],
+                              "gopatch_output": vlib.unb64(r["out"]).decode("utf-8", "replace")[:6000] if r.get("out") else None})
+                continue
+        enginecheck.report(ck, name, (pair[0], pair[1], pair[2], pair[3][:3000]), o, "frame", {"must_parse": True} if name in id_names else None)
     ck.notes["rewritten_sites_total"] = nsites
     ck.notes["toolchain_files"] = len(files)
     ck.sample({"case": names[0], "patch": pairs[0][1].decode(), "file_bytes": len(pairs[0][3])})
